@@ -54,7 +54,7 @@ Definition patch (before gone new : list entry) : list entry :=
 Definition s_during (c : case) (s : sess) : list entry := patch (c_before c) (s_dgone s) (s_dnew s).
 Definition s_after (c : case) (s : sess) : list entry := patch (c_before c) (s_agone s) (s_anew s).
 
-Definition hbad : hdata := mkH 0 0 [] [] 0 0.
+Definition hbad : hdata := mkH 0 0 [] [] 0 0 [].
 Definition init_of (tbl : list (Z * hdata)) (mv : Z) : hdata :=
   match find (fun p => fst p =? mv) tbl with Some p => snd p | None => hbad end.
 Definition has_key (tbl : list (Z * hdata)) (mv : Z) : bool := existsb (fun p => fst p =? mv) tbl.
@@ -183,7 +183,7 @@ Definition sess_holds (c : case) (s : sess) : bool :=
 
 Definition flush_holds (c : case) : bool :=
   if c_flushed c then
-    let want := head_data (init_of (c_init c) (cutoff (c_blocks c))) (c_sel c) in
+    let want := head_data (open_ro (init_of (c_init c)) (c_blocks c) maxInt64) (c_sel c) in
     match c_flush c with
     | None => match want with [] => true | _ => false end
     | Some (_, _, y) => answer_eqb y want
